@@ -67,6 +67,149 @@ fn c17_q_lookup_leaf_is_safe_component() {
     }
 }
 
+// ---------------------------------------------------------------- the lookup functions themselves
+use breakpad_symbols::{binary_lookup, breakpad_sym_lookup, extra_debuginfo_lookup, Module};
+use debugid::{CodeId, DebugId};
+use std::borrow::Cow;
+
+struct M<'a> {
+    code: &'a str,
+    debug: &'a str,
+}
+impl<'a> Module for M<'a> {
+    fn base_address(&self) -> u64 { 0 }
+    fn size(&self) -> u64 { 0 }
+    fn code_file(&self) -> Cow<'_, str> { Cow::Borrowed(self.code) }
+    fn code_identifier(&self) -> Option<CodeId> { Some(CodeId::nil()) }
+    fn debug_file(&self) -> Option<Cow<'_, str>> { Some(Cow::Borrowed(self.debug)) }
+    fn debug_identifier(&self) -> Option<DebugId> { Some(DebugId::nil()) }
+    fn version(&self) -> Option<Cow<'_, str>> { None }
+}
+
+pub fn id_string<T: ?Sized>(_x: &T) -> String {
+    String::from("I")
+}
+
+fn leaf_of(b: &[u8]) -> &[u8] {
+    let mut start = 0;
+    let mut i = 0;
+    while i < b.len() {
+        if b[i] == b'/' || b[i] == b'\\' {
+            start = i + 1;
+        }
+        i += 1;
+    }
+    &b[start..]
+}
+fn is_safe(l: &[u8]) -> bool {
+    !(l.is_empty() || (l.len() == 1 && l[0] == b'.') || (l.len() == 2 && l[0] == b'.' && l[1] == b'.') || (l.len() >= 2 && l[1] == b':' && l[0].is_ascii_alphabetic()))
+}
+fn is_cat(got: &[u8], a: &[u8], mid: &[u8], c: &[u8]) -> bool {
+    if got.len() != a.len() + mid.len() + c.len() + 2 {
+        return false;
+    }
+    let mut k = 0;
+    let mut i = 0;
+    while i < a.len() { if got[k] != a[i] { return false; } k += 1; i += 1; }
+    if got[k] != b'/' { return false; }
+    k += 1;
+    i = 0;
+    while i < mid.len() { if got[k] != mid[i] { return false; } k += 1; i += 1; }
+    if got[k] != b'/' { return false; }
+    k += 1;
+    i = 0;
+    while i < c.len() { if got[k] != c[i] { return false; } k += 1; i += 1; }
+    true
+}
+
+/// F: breakpad_symbols::extra_debuginfo_lookup (safe_leafname, the `[leaf, id, leaf].join("/")` assembly)
+/// I: debug file name: ASCII string of 0..=3 symbolic bytes (separators, dots, colons included)
+/// B: names up to 3 bytes
+/// A: DebugId / BreakpadFormat `to_string` replaced by a stub returning "I" (hex formatting is not the subject)
+/// O: None exactly for names whose leaf is empty, ".", ".." or drive-prefixed; otherwise cache_rel and server_rel are exactly `<leaf>/<id>/<leaf>`: three components, the outer two the safe leaf of the name - nothing of the directory part of the name reaches the path
+#[kani::proof]
+#[kani::unwind(8)]
+#[kani::stub(<debugid::DebugId as std::string::ToString>::to_string, id_string)]
+#[kani::stub(<debugid::BreakpadFormat<'_> as std::string::ToString>::to_string, id_string)]
+fn c17_q_lookup_paths_extra_debuginfo() {
+    let (d, dl) = any_ascii::<3>();
+    let debug = unsafe { std::str::from_utf8_unchecked(&d[..dl]) };
+    let m = M { code: "c", debug };
+    let r = extra_debuginfo_lookup(&m);
+    let leaf = leaf_of(&d[..dl]);
+    match &r {
+        Some(l) => {
+            assert!(is_safe(leaf));
+            assert!(is_cat(l.cache_rel.as_bytes(), leaf, b"I", leaf));
+            assert!(is_cat(l.server_rel.as_bytes(), leaf, b"I", leaf));
+        }
+        None => assert!(!is_safe(leaf)),
+    }
+    std::mem::forget(r);
+}
+
+/// F: breakpad_symbols::binary_lookup
+/// I: code file name and debug file name: ASCII strings of 0..=3 symbolic bytes each
+/// B: names up to 3 bytes
+/// A: as above
+/// O: None exactly when either leaf is unusable; otherwise cache_rel is `<debug leaf>/<id>/<code leaf>` and server_rel is `<code leaf>/<code id>/<code leaf>` - built from the leaves, never from the raw names
+#[kani::proof]
+#[kani::unwind(8)]
+#[kani::stub(<debugid::DebugId as std::string::ToString>::to_string, id_string)]
+#[kani::stub(<debugid::BreakpadFormat<'_> as std::string::ToString>::to_string, id_string)]
+fn c17_q_lookup_paths_binary() {
+    let (d, dl) = any_ascii::<3>();
+    let (c, cl) = any_ascii::<3>();
+    let debug = unsafe { std::str::from_utf8_unchecked(&d[..dl]) };
+    let code = unsafe { std::str::from_utf8_unchecked(&c[..cl]) };
+    let m = M { code, debug };
+    let r = binary_lookup(&m);
+    let dleaf = leaf_of(&d[..dl]);
+    let cleaf = leaf_of(&c[..cl]);
+    match &r {
+        Some(l) => {
+            assert!(is_safe(dleaf) && is_safe(cleaf));
+            assert!(is_cat(l.cache_rel.as_bytes(), dleaf, b"I", cleaf));
+            assert!(is_cat(l.server_rel.as_bytes(), cleaf, CodeId::nil().as_ref().as_bytes(), cleaf));
+        }
+        None => assert!(!is_safe(dleaf) || !is_safe(cleaf)),
+    }
+    std::mem::forget(r);
+}
+
+
+pub fn ext_stub(filename: &str, _m: &str, new_extension: &str) -> String {
+    let _ = (filename, new_extension);
+    String::from("f.sym")
+}
+
+/// F: breakpad_symbols::breakpad_sym_lookup
+/// I: debug file name: ASCII string of 0..=3 symbolic bytes
+/// B: names up to 3 bytes
+/// A: as above; replace_or_add_extension (split / to_lowercase / join: not encodable on symbolic text) replaced by a stub returning "f.sym"
+/// O: None exactly for unusable leaves; otherwise cache_rel and server_rel are exactly `<leaf>/<id>/<file>` with the first component the safe leaf itself (nothing trimmed or rewritten after the safety check)
+#[kani::proof]
+#[kani::unwind(10)]
+#[kani::stub(<debugid::DebugId as std::string::ToString>::to_string, id_string)]
+#[kani::stub(<debugid::BreakpadFormat<'_> as std::string::ToString>::to_string, id_string)]
+#[kani::stub(breakpad_symbols::replace_or_add_extension, ext_stub)]
+fn c17_q_lookup_paths_breakpad_sym() {
+    let (d, dl) = any_ascii::<3>();
+    let debug = unsafe { std::str::from_utf8_unchecked(&d[..dl]) };
+    let m = M { code: "c", debug };
+    let r = breakpad_sym_lookup(&m);
+    let leaf = leaf_of(&d[..dl]);
+    match &r {
+        Some(l) => {
+            assert!(is_safe(leaf));
+            assert!(is_cat(l.cache_rel.as_bytes(), leaf, b"I", b"f.sym"));
+            assert!(is_cat(l.server_rel.as_bytes(), leaf, b"I", b"f.sym"));
+        }
+        None => assert!(!is_safe(leaf)),
+    }
+    std::mem::forget(r);
+}
+
 /// Reachability witness.
 #[kani::proof]
 #[kani::unwind(8)]
